@@ -68,8 +68,29 @@ def m_opt_i32_eq(it, p, callee, args):
     return Bool(z3.Or(z3.And(x.discr.t == 0, y.discr.t == 0), z3.And(x.discr.t == 1, y.discr.t == 1, px == py)))
 
 
+def m_copy_to_slice(it, p, callee, args):
+    """bytes::Buf::copy_to_slice on a &[u8] cursor: panics when fewer bytes remain than the destination holds"""
+    cur = sm.deref(args[0])
+    base, st, ln = sm.slice_parts(cur)
+    dst = args[1]
+    if isinstance(dst, Tup) and dst.name == "Slice":
+        dref, dst_st, dln = sm.slice_parts(dst)
+    else:
+        dref, dst_st, dln = dst, 0, len(sm.elems(sm.deref(dst)))
+    if ln < dln:
+        raise mir.Panic("advance out of bounds: the buffer holds fewer bytes than copy_to_slice needs")
+    src = sm.elems(sm.deref(base))[st:st + dln]
+    d = sm.elems(sm.deref(dref))
+    for i, x in enumerate(src):
+        d[dst_st + i] = x
+    cur.f[1] = it.const_int(st + dln, "usize")
+    cur.f[2] = it.const_int(ln - dln, "usize")
+    return Unit()
+
+
 def models():
     m = {}
+    m[r"^<&\[u8\] as (bytes::)?Buf>::copy_to_slice$"] = m_copy_to_slice
     m.update(sm.INT_MODELS); m.update(sm.RANGE_MODELS); m.update(sm.SLICE_MODELS)
     m[r"ReadBytesExt>::read_i32::<BigEndian>$"] = m_read_be(4, True)
     m[r"ReadBytesExt>::read_u16::<BigEndian>$"] = m_read_be(2, False)
